@@ -178,6 +178,14 @@ def run(ctx, res):
     import shapelib
     from props import c03
     for f in ctx['known']:
+        if f['id'] == 'F22' and f['status'] == 'fixed':
+            from lark import Lark
+            w = f['witness']
+            for kw in (dict(parser='lalr'), dict(parser='earley'), dict(parser='earley', ambiguity='explicit')):
+                try:
+                    Lark(w['grammar'], propagate_positions=True, **kw).parse(w['text'])
+                except AttributeError as e:
+                    res.violation('regression of fixed finding F22: ' + f['what'], dict(w, options=kw, error=repr(e)))
         if f['id'] == 'F19' and f['status'] == 'open':
             from lark import Lark
             w = f['witness']
